@@ -1,10 +1,11 @@
 #!/bin/bash
 # usage: seedround.sh <prefix> <variant-dir> <id> ...   e.g. seedround.sh mut4 d C01d C01e
+# (env SUF: suffix appended to <id> for the name under seeded/)
 # confirms each delivered change in its scratch worktree (/tmp/<prefix>-<id>), copies it to seeded/<id>/ and runs the check of its property
 PRE=$1; V=$2; shift 2
 export GOFLAGS=-mod=mod GOPROXY=off
 for id in "$@"; do
-  P=${id:0:3}; W=/tmp/$PRE-$id; O=/tmp/$PRE-$id-out/$V
+  P=${id:0:3}; W=/tmp/$PRE-$id; O=/tmp/$PRE-$id-out/$V; N=$id${SUF:-}
   [ -f $O/patch.diff ] || { echo "$id: nothing delivered"; continue; }
   cd $W || continue
   git checkout -q -- . ; git clean -fdq
@@ -19,9 +20,9 @@ for id in "$@"; do
   without=$(timeout 900 go test $race -vet=off -count=1 ./$dir 2>&1 | grep -c "^--- FAIL\|^FAIL\|panic:\|DATA RACE")
   rm -f $dir/zz_seed_demo_test.go; git checkout -q -- . ; git clean -fdq
   cd /verif
-  mkdir -p seeded/$id && cp $O/patch.diff seeded/$id/patch.diff && cp $O/demo_test.go seeded/$id/demo_test.go.txt && cp $O/NOTES.md seeded/$id/NOTES.md
-  out=$(lib/seedtest.sh /verif/seeded/$id/patch.diff $P 2>&1)
+  mkdir -p seeded/$N && cp $O/patch.diff seeded/$N/patch.diff && cp $O/demo_test.go seeded/$N/demo_test.go.txt && cp $O/NOTES.md seeded/$N/NOTES.md
+  out=$(lib/seedtest.sh /verif/seeded/$N/patch.diff $P 2>&1)
   n=$(echo "$out" | grep -c "^VIOLATION"); nf=$(echo "$out" | grep -c "no-failing-input-found")
   why=$(echo "$out" | grep -m1 "violation (" | sed 's/.*violation (\([a-z]*\)): //' | cut -c1-140)
-  echo "$id  confirm: suite-failures=$suite demo-with=$with demo-without=$without | violations=$n no-failing-input=$nf  $why"
+  echo "$N  confirm: suite-failures=$suite demo-with=$with demo-without=$without | violations=$n no-failing-input=$nf  $why"
 done
